@@ -127,7 +127,9 @@ func (ld *Loaded) load() error {
 	cfg := &packages.Config{
 		Mode:       packages.LoadAllSyntax,
 		Dir:        repoDir,
-		BuildFlags: []string{"-tags=verif"},
+		// math_big_pure_go: the encoder reads math/big's portable Go kernels instead of
+		// the assembly ones (same results; the native replay uses the default build)
+		BuildFlags: []string{"-tags=verif,math_big_pure_go"},
 		Overlay:    ld.overlay,
 		Env:        goEnv(),
 	}
